@@ -8,3 +8,14 @@ pub(crate) fn spec_pad(off: usize, align: usize) -> usize {
     let rem = (off as u128 % align as u128) as usize;
     if rem == 0 { 0 } else { align - rem }
 }
+
+// ---- container nesting limits (D-Bus specification, "Valid Signatures": 32 arrays, 32 structs, 64 total)
+pub(crate) const SPEC_MAX_STRUCT: u32 = 32;
+pub(crate) const SPEC_MAX_ARRAY: u32 = 32;
+pub(crate) const SPEC_MAX_TOTAL: u32 = 64;
+
+/// Is a nesting state (counts of open structures / arrays / variants / maybes) within the limits?
+#[allow(dead_code)]
+pub(crate) fn spec_depth_ok(s: u32, a: u32, v: u32, m: u32) -> bool {
+    s <= SPEC_MAX_STRUCT && a <= SPEC_MAX_ARRAY && s + a + v + m <= SPEC_MAX_TOTAL
+}
